@@ -148,6 +148,21 @@ def httpEtag (w : HttpW) : Res EtagObs × HttpW :=
      | some t => (.ok (.tag t), w)
      | none => (.ok .none, w))
 
+/-- the `If-None-Match` header: `_etag` when it is truthy -/
+def HttpW.inm (w : HttpW) : Option Tag :=
+  match w.cachedTag with
+  | some t => if t = "" then none else some t
+  | none => none
+
+/-- the server answers 304: it honours `If-None-Match` and the header equals the current ETag -/
+def HttpW.notModified (w : HttpW) (b : Blob) : Bool := w.serverEtags && w.inm.isSome && w.inm == w.srvTag b
+
+/-- `_etag` after a 200 answer: the ETag header if there is a non-empty one, else unchanged -/
+def HttpW.newTag (w : HttpW) (b : Blob) : Option Tag :=
+  match w.srvTag b with
+  | some t => some t
+  | none => w.cachedTag
+
 /-- `load()`: conditional GET (`If-None-Match: _etag` when `_etag` is truthy); 304 ⇒ the cached body
     (`{}` if none); error status ⇒ raise; 200 ⇒ remember the ETag header *first*, then parse, then
     remember the parsed body -/
@@ -158,12 +173,9 @@ def httpLoad (w : HttpW) : Res Doc × HttpW :=
     match w.server with
     | none => (.raise (.other "HTTPError"), w)
     | some b =>
-      let inm : Option Tag := match w.cachedTag with | some t => if t = "" then none else some t | none => none
-      if w.serverEtags && inm.isSome && inm == w.srvTag b then
-        (.ok (w.cachedDoc.getD emptyDoc), w)
-      else
-        let w1 := match w.srvTag b with | some t => { w with cachedTag := some t } | none => w
-        if b.valid then (.ok b.doc, { w1 with cachedDoc := some b.doc }) else (.raise .jsonDecode, w1)
+      if w.notModified b then (.ok (w.cachedDoc.getD emptyDoc), w)
+      else if b.valid then (.ok b.doc, { w with cachedTag := w.newTag b, cachedDoc := some b.doc })
+      else (.raise .jsonDecode, { w with cachedTag := w.newTag b })
 
 def httpSource : Source HttpW := { etag := httpEtag, load := httpLoad }
 
